@@ -19,6 +19,7 @@ import (
 	"log/slog"
 	"net"
 	"sort"
+	"sync/atomic"
 
 	"github.com/k-sone/critbitgo"
 	"github.com/osrg/gobgp/v4/pkg/config/oc"
@@ -71,6 +72,14 @@ func (r *roaBucket) GetEntries() []*ROA {
 type ROATable struct {
 	trees  map[bgp.Family]*critbitgo.Net
 	logger *slog.Logger
+	// AS of this speaker: the origin AS of a locally originated route
+	// (whose source carries no AS)
+	localAS atomic.Uint32
+}
+
+// SetLocalAS tells the table the AS of this speaker.
+func (rt *ROATable) SetLocalAS(as uint32) {
+	rt.localAS.Store(as)
 }
 
 func NewROATable(logger *slog.Logger) *ROATable {
@@ -198,6 +207,10 @@ func (rt *ROATable) Validate(path *Path) *Validation {
 	}
 
 	ownAs := path.OriginInfo().source.LocalAS
+	if ownAs == 0 {
+		// a locally originated route: its source is not a peer
+		ownAs = rt.localAS.Load()
+	}
 	asPath := path.GetAsPath()
 	var as uint32
 
